@@ -45,21 +45,23 @@ impl<'a> CharCounter<'a>
 		index: usize)
 		-> (usize, usize)
 	{
+		// `index` is a byte index into the source;
+		// lines and columns are counted in characters
 		let mut line = 0;
 		let mut column = 0;
 		
-		let mut i = 0;
-		while i < index && i < self.chars.len()
+		for (byte_index, c) in self.src.char_indices()
 		{
-			if self.chars[i] == '\n'
+			if byte_index >= index
+				{ break; }
+			
+			if c == '\n'
 			{
 				line += 1;
 				column = 0;
 			}
 			else
 				{ column += 1; }
-			
-			i += 1;
 		}
 		
 		(line, column)
@@ -71,29 +73,36 @@ impl<'a> CharCounter<'a>
 		line: usize)
 		-> (usize, usize)
 	{
+		// Returns byte indices into the source
 		let mut line_count = 0;
 		let mut line_begin = 0;
 		
-		while line_count < line && line_begin < self.chars.len()
+		let mut iter = self.src.char_indices();
+		
+		while line_count < line
 		{
-			line_begin += 1;
-			
-			if self.chars[line_begin - 1] == '\n'
-				{ line_count += 1; }
+			match iter.next()
+			{
+				Some((byte_index, c)) =>
+				{
+					line_begin = byte_index + c.len_utf8();
+					
+					if c == '\n'
+						{ line_count += 1; }
+				}
+				None => break,
+			}
 		}
 		
 		let mut line_end = line_begin;
-		while line_end < self.chars.len()
+		for (byte_index, c) in iter
 		{
-			line_end += 1;
+			line_end = byte_index + c.len_utf8();
 			
-			if self.chars[line_end - 1] == '\n'
+			if c == '\n'
 				{ break; }
 		}
 		
-		(
-			line_begin.try_into().unwrap(),
-			line_end.try_into().unwrap()
-		)
+		(line_begin, line_end)
 	}
 }
